@@ -161,6 +161,11 @@ func classifyDeath(caseIdx int, name string, stderr string, timedOut bool) resul
 		return r
 	}
 	if timedOut && msg == "" {
+		if sig, detail, stack := stalledRequest(stderr); sig != "" {
+			r.Verdict = "violated"
+			r.Violations = []violation{{Sig: sig, Detail: detail, Witness: map[string]interface{}{"parked_goroutine": stack}}}
+			return r
+		}
 		r.Verdict = "inconclusive"
 		r.Inconclusive = "watchdog: case exceeded its wall-clock budget (goroutine dump kept in the run log)"
 		return r
@@ -607,4 +612,79 @@ func replay(path string) {
 	if hit > 0 {
 		os.Exit(1)
 	}
+}
+
+var gHdr = regexp.MustCompile(`^goroutine (\d+) (?:gp=\S+ m=\S+(?: mp=\S+)? )?\[([^\],]+)(?:, (\d+) minutes)?`)
+
+var parkedStates = map[string]bool{"sync.Mutex.Lock": true, "sync.RWMutex.RLock": true, "sync.RWMutex.Lock": true, "semacquire": true,
+	"chan receive": true, "chan send": true, "select": true, "sync.Cond.Wait": true, "sync.WaitGroup.Wait": true}
+
+// stalledRequest reads the goroutine dump a watchdog kill (SIGQUIT) leaves behind. It answers with a signature only
+// when the dump itself shows a request that can never return, whatever the machine's load was: the goroutine that
+// runs the case sits INSIDE kubebrain code, parked on a synchronisation primitive for at least a minute, and no
+// goroutine with a kubebrain frame (other than the sequencer's idle spin) is running, runnable or in a system call -
+// nobody is on the way to release it. Anything else stays an inconclusive watchdog death.
+func stalledRequest(stderr string) (sig, detail, stack string) {
+	blocks := strings.Split(stderr, "\n\n")
+	type g struct {
+		state   string
+		minutes int
+		body    string
+	}
+	var gs []g
+	for _, b := range blocks {
+		first := b
+		if i := strings.IndexByte(b, '\n'); i >= 0 {
+			first = b[:i]
+		}
+		m := gHdr.FindStringSubmatch(strings.TrimSpace(first))
+		if m == nil {
+			continue
+		}
+		min, _ := strconv.Atoi(m[3])
+		gs = append(gs, g{state: m[2], minutes: min, body: b})
+	}
+	const kb = "github.com/kubewharf/kubebrain/"
+	var victim *g
+	for i := range gs {
+		x := &gs[i]
+		if !parkedStates[x.state] || x.minutes < 1 || !strings.Contains(x.body, "verif/internal/props.") {
+			continue
+		}
+		// the innermost non-runtime frame must be kubebrain's (the case is waiting inside the system under test)
+		kbAt, propsAt := strings.Index(x.body, kb), strings.Index(x.body, "verif/internal/props.")
+		if kbAt < 0 || kbAt > propsAt {
+			continue
+		}
+		if victim == nil || x.minutes > victim.minutes {
+			victim = x
+		}
+	}
+	if victim == nil {
+		return "", "", ""
+	}
+	for _, x := range gs {
+		if (x.state == "running" || x.state == "runnable" || x.state == "syscall") && strings.Contains(x.body, kb) &&
+			!strings.Contains(x.body, "collectStorageWriteEvents") && !strings.Contains(x.body, "verif/internal/") {
+			return "", "", ""
+		}
+	}
+	fn := ""
+	for _, l := range strings.Split(victim.body, "\n") {
+		if strings.HasPrefix(l, kb) {
+			fn = l
+			if i := strings.LastIndex(fn, "("); i > 0 {
+				fn = fn[:i]
+			}
+			fn = strings.TrimPrefix(fn, kb)
+			break
+		}
+	}
+	lines := strings.Split(victim.body, "\n")
+	if len(lines) > 40 {
+		lines = lines[:40]
+	}
+	return "stall request-never-returns parked=" + victim.state + " in " + fn,
+		fmt.Sprintf("the case's request has been parked inside kubebrain (%s, state %q) for %d minute(s) and no goroutine of the node is running, runnable or in a system call: the request can never return", fn, victim.state, victim.minutes),
+		strings.Join(lines, "\n")
 }
